@@ -1,8 +1,11 @@
 package props
 
 import (
+	"encoding/hex"
 	"fmt"
+	codectypes "github.com/cosmos/cosmos-sdk/codec/types"
 	"math/big"
+	"os"
 	"reflect"
 
 	"cosmossdk.io/math"
@@ -211,6 +214,23 @@ func attScenario(r *core.Run, prop string) []*core.Violation {
 			lingerUntil = 0
 			r.Trace.Event("heal", "")
 		}
+		// a validator that has voted for lingering claims is jailed (it signed a bridge checkpoint the chain never issued and
+		// somebody reports it): its vote stays on the pending attestations, its power must no longer count
+		if lingerUntil != 0 && t.Chance(1, 6) {
+			var cands []int
+			for vi, p := range w.Pigeons {
+				if !p.EVMPartitioned && !p.Down {
+					cands = append(cands, vi)
+				}
+			}
+			if len(cands) > 1 {
+				vi := cands[t.Intn(len(cands))]
+				if jailByEvidence(w, vi, w.Order[t.Intn(len(w.Order))]) {
+					r.Stats.Fault("voter_jailed_by_evidence")
+					r.Trace.Event("jail-voter", "%s", w.Vals[vi].Acct.Name)
+				}
+			}
+		}
 		// power changes between vote and tally
 		if t.Chance(1, 8) {
 			u := w.Users[t.Intn(len(w.Users))]
@@ -263,6 +283,19 @@ func attScenario(r *core.Run, prop string) []*core.Violation {
 		}
 		aw.collectVotes(br)
 		aw.scan()
+		if os.Getenv("VERIF_DEBUG") != "" {
+			for _, chain := range w.Order {
+				cur, _ := w.N.App.SkywayKeeper.GetLastObservedSkywayNonce(w.Ctx(), chain)
+				var l []string
+				for _, k := range core.SortedKeys(aw.Cur) {
+					c := aw.Cur[k]
+					if c.Chain == chain && c.Nonce+2 > cur {
+						l = append(l, fmt.Sprintf("%d:%v:%v", c.Nonce, c.Observed, c.Votes))
+					}
+				}
+				r.Trace.Event("debug-cursor", "h=%d %s cursor=%d %v", br.Height, chain, cur, l)
+			}
+		}
 		report(aw.OracleC02(br))
 		report(aw.OracleC11(br))
 	}
@@ -275,4 +308,32 @@ func attScenario(r *core.Run, prop string) []*core.Violation {
 		len(cfg.Chains), cfg.NVals, nByz, r.Blocks, r.Stats.Probes["votes_accepted"], r.Stats.Probes["c02_observations_checked"], r.Stats.Probes["c02_duplicate_votes_in_list"],
 		r.Stats.Probes["c11_pooled_votes_checked"], r.Stats.Probes["nonce_overrides"], r.Stats.Probes["power_changes"], r.Stats.Probes["node_sales_emitted"], r.Stats.Probes["deposit_observed"])}
 	return viols
+}
+
+// jailByEvidence reports a (deliberately produced) signature of validator vi over a bridge batch the chain never issued.
+func jailByEvidence(w *SkyWorld, vi int, chain string) bool {
+	ctx := w.Ctx()
+	ci, err := w.N.App.EvmKeeper.GetChainInfo(ctx, chain)
+	if err != nil || len(w.Tokens) == 0 {
+		return false
+	}
+	erc20, ok := w.Tokens[0].ERC20[chain]
+	if !ok {
+		return false
+	}
+	key := w.Vals[vi].Eth[chain]
+	user := w.Users[0]
+	fake := skywaytypes.OutgoingTxBatch{
+		BatchNonce: 900_000 + uint64(w.N.Height), BatchTimeout: 1 << 40, TokenContract: erc20.Hex(), PalomaBlockCreated: uint64(w.N.Height),
+		ChainReferenceId: chain, AssigneeRemoteAddress: key.Addr.Bytes(),
+		Transactions: []skywaytypes.OutgoingTransferTx{{Id: 900_000 + uint64(w.N.Height), Sender: user.Bech32(), DestAddress: common.BytesToAddress([]byte{7, 7, 7}).Hex(),
+			Erc20Token: skywaytypes.ERC20Token{Contract: erc20.Hex(), Amount: math.NewInt(5), ChainReferenceId: chain}, BridgeTaxAmount: math.ZeroInt()}},
+	}
+	dig := batchDigest(&fake, ci.SmartContractUniqueID)
+	subj, err := codectypes.NewAnyWithValue(&fake)
+	if err != nil {
+		return false
+	}
+	res := w.Submit(user, &skywaytypes.MsgSubmitBadSignatureEvidence{Metadata: meta(user), Subject: subj, Signature: hex.EncodeToString(key.SignEthMessage(dig)), ChainReferenceId: chain})
+	return res.Accepted()
 }
